@@ -672,6 +672,10 @@ pub fn conv_ty(file: &str, t: &syn::Type, self_ty: Option<&str>, type_names: &[S
                     return Ok(Ty::Opaque(lean.to_string()));
                 }
             }
+            if name == "Ipv4Addr" || name == "Ipv6Addr" {
+                // `std::net::Ipv4Addr` / `Ipv6Addr`: the array of their octets
+                return Ok(Ty::List(Box::new(Ty::u8()), ListKind::Array));
+            }
             if segs.len() == 1 {
                 if let Some(w) = int_width(&name) {
                     return Ok(Ty::Int(w));
